@@ -52,10 +52,10 @@ PROPS["C12"] = {
     "units": [{
         "pkg": "primitives/sr25519", "configs": ALL4,
         "tests": {
-            "TestC12Sign": T(1200, 30000, shards={"quick": 6, "thorough": 16}),
+            "TestC12Sign": T(2400, 30000, shards={"quick": 6, "thorough": 16}),
             "TestC12SigBits": LIST(),
-            "TestC12Batch": T(400, 12000, shards={"quick": 4, "thorough": 16}),
-            "TestC12Decode": T(4000, 160000),
+            "TestC12Batch": T(800, 12000, shards={"quick": 4, "thorough": 16}),
+            "TestC12Decode": T(8000, 160000),
             "FuzzC12Decode": FUZZ(90, configs=["default"]),
             "TestC12DecodeList": LIST(),
         },
